@@ -46,6 +46,11 @@ def run(ctx: Ctx):
   ctx.include('R-C13-5', '"collects every generator\'s return value": the'
               ' return values are recorded before end-of-stream can be'
               ' observed (R-C04-6)', c04.r6, qmodel(ctx), min_instances=2)
+  ctx.include('R-C13-8', '"produces exactly the multiset ... all helper threads'
+              ' finish": the bounded hand-over queues piter builds wake a blocked'
+              ' producer after EVERY successful dequeue, whichever way the'
+              ' consumer leaves (batch full, queue empty, single get) (R-C04-5)',
+              c04.r5, qmodel(ctx), min_instances=4)
 
 
 def _fail_shared(sub, m):
